@@ -12,6 +12,9 @@
 //!       of unit numbers it consists of (-1 = a block that is not a clean copy of any unit).
 //!   {"kind":"plan","ops":[{"op":"plan","size":S,"segs":[["F"|"T",used],...],"thr":[num,den]},...]}
 //!       `plan_archive_merge` on the given segment population (bytes); the plan is logged.
+//!   {"kind":"move","n":N,"m":M,"unit":U,"ops":[{"op":"move","budget":B,"src":so,"dst":do,"len":l},...]}
+//!       `CompactionFileMover::move_data` from a source file of N units to a destination file of M
+//!       units (units N..N+M-1); both files are read back and logged as unit numbers.
 //!   {"kind":"arch","ops":[{"op":"arch","objs":[size,...],"seed":s,"reopen":bool,"extra":k}]}
 //!       objects are written through `ArchiveManager`, `compact()` is called, and every object is
 //!       read back before/after through the same manager and through a fresh one (= from disk).
@@ -141,6 +144,63 @@ fn run_seg(prog: &Value, out: &Emit) {
         let data = std::fs::read(&path).expect("read segment file back");
         let (units, ragged) = decode(&data, unit, &o);
         ev["obs"] = json!({"units": units, "ragged": ragged, "bytes": data.len()});
+        out.ev(ev);
+    }
+}
+
+// ---------------------------------------------------------------------------
+// (d) CompactionFileMover::move_data
+// ---------------------------------------------------------------------------
+fn run_move(prog: &Value, out: &Emit) {
+    let n = prog["n"].as_u64().expect("n") as usize;
+    let m = prog["m"].as_u64().expect("m") as usize;
+    let unit = prog["unit"].as_u64().expect("unit") as usize;
+    let o = orig(unit, n + m);
+    let dir = tempfile::tempdir_in(scratch()).expect("tempdir");
+    let sp = dir.path().join("data.000");
+    let dp = dir.path().join("data.001");
+    std::fs::write(&sp, &o[..n * unit]).expect("write source file");
+    std::fs::write(&dp, &o[n * unit..(n + m) * unit]).expect("write destination file");
+    out.ev(json!({"op": "new", "kind": "move", "n": n, "m": m, "unit": unit}));
+    let mut seq = 0u64;
+    for op in prog["ops"].as_array().expect("ops") {
+        assert_eq!(op["op"], "move", "driver: unknown move op");
+        out.begin(op);
+        let budget = op["budget"].as_u64().expect("budget") as usize;
+        let so = op["src"].as_u64().expect("src") * unit as u64;
+        let dof = op["dst"].as_u64().expect("dst") * unit as u64;
+        let len = op["len"].as_u64().expect("len") * unit as u64;
+        let mut ev = op.clone();
+        let r = guarded(|| {
+            let mut sf = std::fs::File::open(&sp).expect("open source file");
+            let mut df = OpenOptions::new().write(true).open(&dp).expect("open destination file");
+            let mut mover = CompactionFileMover::new(budget);
+            let r = mover.move_data(&mut sf, so, &mut df, dof, len);
+            (r, mover.buffer_size(), mover.bytes_moved())
+        });
+        seq += 1;
+        ev["seq"] = json!(seq);
+        match r {
+            Ok((Ok(()), bs, mv)) => {
+                ev["res"] = json!({"ok": true});
+                ev["bufsize"] = json!(bs);
+                ev["moved"] = json!(mv);
+            }
+            Ok((Err(e), bs, mv)) => {
+                ev["res"] = json!({"ok": false, "err": short(&e)});
+                ev["bufsize"] = json!(bs);
+                ev["moved"] = json!(mv);
+            }
+            Err(msg) => {
+                ev["res"] = outcome_panic(&msg);
+                ev["bufsize"] = json!(0);
+            }
+        }
+        let sd = std::fs::read(&sp).expect("read source file back");
+        let dd = std::fs::read(&dp).expect("read destination file back");
+        let (su, sr) = decode(&sd, unit, &o);
+        let (du, dr) = decode(&dd, unit, &o);
+        ev["obs"] = json!({"src": su, "dst": du, "ragged": sr + dr});
         out.ev(ev);
     }
 }
@@ -289,6 +349,7 @@ fn run_program(prog: &Value, out: &Emit) {
     match prog["kind"].as_str() {
         Some("seg") => run_seg(prog, out),
         Some("plan") => run_plan(prog, out),
+        Some("move") => run_move(prog, out),
         Some("arch") => run_arch(prog, out),
         other => panic!("driver: unknown program kind {other:?}"),
     }
@@ -379,6 +440,26 @@ fn random_seg(rng: &mut Rng) -> Value {
     json!({"kind": "seg", "n": n, "unit": unit, "ops": ops})
 }
 
+fn random_move(rng: &mut Rng) -> Value {
+    let unit = *rng.pick(&UNITS);
+    let maxn = ((4usize << 20) / unit).clamp(1, 32) as u64;
+    let n = 1 + rng.below(maxn);
+    let m = rng.below(maxn + 1);
+    let mut cur = m;
+    let mut ops = vec![];
+    for _ in 0..1 + rng.below(4) {
+        let so = rng.below(n + 1);
+        let len = if rng.chance(1, 8) { 0 } else { rng.below(n - so + 1) };
+        let dof = if rng.chance(1, 3) { cur } else { rng.below(cur + 1) };
+        cur = cur.max(dof + len);
+        if (cur as usize) * unit > (8 << 20) {
+            break;
+        }
+        ops.push(json!({"op": "move", "budget": *rng.pick(&BUDGETS), "src": so, "dst": dof, "len": len}));
+    }
+    json!({"kind": "move", "n": n, "m": m, "unit": unit, "ops": ops})
+}
+
 fn random_plan(rng: &mut Rng) -> Value {
     let mut ops = vec![];
     for _ in 0..8 {
@@ -447,7 +528,11 @@ fn main() {
         let mut dump = arg(&args, "--dump-programs").map(|p| Out::to_path(std::path::Path::new(&p)));
         let mut gen_ = vec![];
         for i in 0..nrand {
-            gen_.push(if i % 3 == 2 { random_plan(&mut rng) } else { random_seg(&mut rng) });
+            gen_.push(match i % 6 {
+                2 | 5 => random_plan(&mut rng),
+                4 => random_move(&mut rng),
+                _ => random_seg(&mut rng),
+            });
         }
         for _ in 0..narch {
             gen_.push(random_arch(&mut rng));
